@@ -90,6 +90,7 @@ class InterpCore(object):
         self.raises = []          # (cond-path, exc value, site)
         self.path_conds = []
         self.sticky_conds = []
+        self.assumption_fns = []
         self.float_as_frac = True
         self.hooks = {}           # fq name -> python callable(interp, args, kwargs) overriding a repo function
 
@@ -297,8 +298,21 @@ class InterpCore(object):
                 return Const(b.v * int(a.const()))
             if isinstance(a, ListV) and isinstance(b, Num) and b.const() is not None:
                 return ListV(a.items * int(b.const()), a.kind)
-        if isinstance(op, (ast.BitOr, ast.BitAnd, ast.Sub, ast.BitXor)) and (isinstance(a, SetV) or isinstance(b, SetV)):
-            self.err(node, "symbolic set algebra")
+        if isinstance(op, (ast.BitOr, ast.BitAnd, ast.Sub, ast.BitXor)) and isinstance(a, ListV) and isinstance(b, ListV) \
+                and a.kind == "set" and b.kind == "set":
+            ka = dict((x.key(), x) for x in a.items)
+            kb = dict((x.key(), x) for x in b.items)
+            if isinstance(op, ast.BitOr):
+                keys = list(ka) + [k for k in kb if k not in ka]
+            elif isinstance(op, ast.BitAnd):
+                keys = [k for k in ka if k in kb]
+            elif isinstance(op, ast.Sub):
+                keys = [k for k in ka if k not in kb]
+            else:
+                keys = [k for k in ka if k not in kb] + [k for k in kb if k not in ka]
+            allv = dict(ka)
+            allv.update(kb)
+            return ListV([allv[k] for k in keys], "set")
         if isinstance(a, Unknown) or isinstance(b, Unknown):
             return Unknown("arith")
         x = self.num(a, node)
@@ -496,6 +510,11 @@ class InterpCore(object):
         raise AnalysisError("truthiness of %r" % (v,))
 
     def assume(self, cond):
+        for fn in self.assumption_fns:
+            r = fn(cond)
+            if r is not None:
+                self.used_assumptions.add(getattr(fn, "text", fn.__name__))
+                return r
         k = cond.key()
         if k in self.assumptions:
             self.used_assumptions.add(k)
@@ -622,6 +641,9 @@ def make_phi(cond, a, b):
         b = b.b
     if a is b:
         return a
+    lk = _as_get_with_default(cond, a, b)
+    if lk is not None:
+        return lk
     if a is not None and b is not None and not isinstance(a, Undefined) and not isinstance(b, Undefined):
         try:
             if a.key() == b.key():
@@ -631,6 +653,23 @@ def make_phi(cond, a, b):
         if isinstance(a, Num) and isinstance(b, Num) and ep.equal(a.rf, b.rf)[0]:
             return a
     return Phi(cond, a, b)
+
+
+def _as_get_with_default(cond, a, b):
+    """phi(k not in D ? X : D[k])  ==  D.get(k, X)   (and the mirrored form)"""
+    neg = False
+    c = cond
+    if isinstance(c, Cond) and c.kind == "not":
+        neg = True
+        c = c.args[0]
+    if not (isinstance(c, Cond) and c.kind == "in"):
+        return None
+    item, cont = c.args
+    found, other = (b, a) if neg else (a, b)
+    if isinstance(found, LookupV) and found.default is None and isinstance(cont, LoopDictV) \
+            and found.ld is cont and found.query.key() == item.key() and other is not None and not isinstance(other, Undefined):
+        return LookupV(cont, found.query, other)
+    return None
 
 
 def seq_concat(a, b):
